@@ -106,11 +106,11 @@ def build_package(d, name, spec):
     for ib, b in enumerate(bands):
         if apdep:
             fl = spec['tables'][:, ib, :]
-            pkgwriter.write_convolved(md, b, names, fl, fl * 0.01, apertures_au=spec['apertures'], filtwav_micron=BAND_WAV[b])
+            pkgwriter.write_convolved(md, b, names, fl, fl * 0.01, apertures_au=spec['apertures'], filtwav_micron=BAND_WAV[b], gz=spec.get('gz', False))
         else:
             fl = spec['flux'][:, ib:ib + 1]
             pkgwriter.write_convolved(md, b, names, fl, fl * 0.01, apertures_au=None, filtwav_micron=BAND_WAV[b],
-                                      flat_single=spec.get('flat_single', True))
+                                      flat_single=spec.get('flat_single', True), gz=spec.get('gz', False))
     if spec['fmt'] == 'v2':
         # the cube: one spectral point per band, stored in increasing frequency
         order = np.argsort([-BAND_WAV[b] for b in bands])
